@@ -38,7 +38,7 @@ m = {
                  'kind_free_text': 'self-built deductive verifier for Go: go/packages + go/ssa (NaiveForm) symbolic execution with loop invariants and modular call contracts, SMT-LIB VCs, z3-new/z3/cvc5 portfolio'}],
     'checks': checks,
     'not_applicable': na,
-    'notes': 'See DESIGN.md. Known findings: known_findings.json. Seeded changes: seeded/.',
+    'notes': 'See DESIGN.md (Part 0 is the as-built summary). Known findings: known_findings.json (demonstrations in findings/). Seeded changes that must be reported: seeded/ (79, tools/run_seeds.sh; the thorough tier re-applies up to three per property on a scratch copy as a must-fail self-test). Behaviour-preserving changes that must stay quiet: benign/, benign2/ (120, tools/run_benign.sh). Quick checks take 10-40 s each on 16 idle cores; an obligation left undecided is retried once with four times the budget before it is reported.',
 }
 json.dump(m, open(f'{V}/MANIFEST.json', 'w'), indent=1)
 print('checks:', [c['property_id'] for c in checks], 'n/a:', len(na))
